@@ -148,6 +148,46 @@ def corpus(rng):
     yield ('len-gt-file-uncompressed', HEADER + u32(1) + u32(3) + b'\0' * 8 + b'INST' + struct.pack('<III', 0, 0xffffffff, 0) + b'abc')
 
 
+def blob_corpus(rng):
+    """yields (label, decoder, bytes): well-formed binary and XML files whose BLOB-typed properties (decoded a second
+    time by the readers: Terrain.MaterialColors, Tags, Attributes) carry blobs of every length around the sizes those
+    decoders expect, and contents they do not expect."""
+    import base64
+
+    def bin_file(cls, pname, blobs):
+        n = len(blobs)
+        refs = list(range(n))
+        chunks = [chunk(b'INST', inst(0, cls, refs), rng=rng),
+                  chunk(b'PROP', prop(0, 'Name', 0x01, b''.join(_pstr(b'n%d' % i) for i in range(n))), rng=rng),
+                  chunk(b'PROP', prop(0, pname, 0x01, b''.join(_pstr(b) for b in blobs)), rng=rng),
+                  chunk(b'PRNT', prnt(refs, [-1] * n), rng=rng)]
+        return assemble(1, n, chunks)
+
+    def xml_file(cls, pname, blobs):
+        items = ''.join('<Item class="%s" referent="R%d"><Properties><string name="Name">n%d</string><BinaryString name="%s">%s</BinaryString></Properties></Item>'
+                        % (cls, i, i, pname, base64.b64encode(b).decode()) for i, b in enumerate(blobs))
+        return ('<roblox version="4">' + items + '</roblox>').encode()
+
+    def rnd(n):
+        return bytes(rng.randrange(256) for _ in range(n))
+
+    # MaterialColors: the real blob is 69 bytes (6 reserved + 21 x 3)
+    mc = [rnd(n) for n in range(0, 81)] + [rnd(n) for n in (138, 207, 255, 256, 1000)]
+    # Tags: NUL-separated UTF-8
+    tags = [b'', b'\0', b'\0\0', b'a\0', b'\0a', b'a\0\0b', b'\xff', b'a\0\xc3', b'\xed\xa0\x80', 'é\0é'.encode(), b'a' * 5000, rnd(40)]
+    # Attributes: count, then name / type id / value
+    good = struct.pack('<I', 1) + _pstr(b'k') + b'\x03' + b'\x01'
+    attrs = [b'', good, good[:-1], good + b'\x00', struct.pack('<I', 0), struct.pack('<I', 2) + good[4:], struct.pack('<I', 0xffffffff), struct.pack('<I', 1) + _pstr(b'k') + b'\x7f',
+             struct.pack('<I', 1) + struct.pack('<I', 0xfffffff0) + b'k', struct.pack('<I', 1) + _pstr(b'\xff') + b'\x03\x01', struct.pack('<I', 1) + _pstr(b'k') + b'\x02' + struct.pack('<I', 0x7fffffff)] + [rnd(n) for n in (1, 3, 4, 5, 9, 17, 64)]
+    for label, cls, pname, blobs in [('blob-materialcolors', 'Terrain', 'MaterialColors', mc), ('blob-tags', 'Folder', 'Tags', tags), ('blob-attributes', 'Folder', 'AttributesSerialize', attrs)]:
+        # one file per blob (so one bad blob cannot hide the next) and one file with all of them
+        for i, b in enumerate(blobs):
+            yield ('%s-len%d' % (label, len(b)) if label == 'blob-materialcolors' else '%s-%d' % (label, i), 'bin', bin_file(cls, pname, [b]))
+            yield ('%s-xml-len%d' % (label, len(b)) if label == 'blob-materialcolors' else '%s-xml-%d' % (label, i), 'xml', xml_file(cls, pname, [b]))
+        yield (label + '-all', 'bin', bin_file(cls, pname, blobs))
+        yield (label + '-xml-all', 'xml', xml_file(cls, pname, blobs))
+
+
 def make(path, seed):
     rng = random.Random(f'c13-{seed}')
     n = 0
@@ -156,4 +196,7 @@ def make(path, seed):
             for label, data in corpus(rng):
                 out.write(json.dumps({'label': label, 'hex': data.hex()}) + '\n')
                 n += 1
+        for label, dec, data in blob_corpus(rng):
+            out.write(json.dumps({'label': label, 'dec': dec, 'hex': data.hex()}) + '\n')
+            n += 1
     return n
